@@ -19,15 +19,18 @@ import random
 from sim import core
 from sim import rast
 from sim import simfs
+from sim import simnet
 from sim import tsched
 from sim import world as W
 
-SCENARIOS = ('S1', 'S2', 'S3', 'S4', 'S5', 'RND')
+SCENARIOS = ('S1', 'S2', 'S3', 'S4', 'S5', 'RND', 'S6')
+PEER_URL = 'http://peer.test/authz'
 NCHUNK = 16
 
 
 def warm_up():
     core.boot()
+    simnet.install()
     rng = random.Random('warm-up-c20')
     for sc in SCENARIOS:
         inst = gen_instance(rng, sc)
@@ -166,6 +169,22 @@ def gen_instance(rng, sc):
             edits = [{'op': 'touch', 'path': 'etc/policy.d/a.yaml',
                       'dt': rng.choice(W.DTS)}]
         _finish(w, ['extra'])
+    elif sc == 'S6':
+        # a remote check followed by rule: references: while the decider
+        # waits for the peer's answer the file is edited and reloaded
+        o1, o2, dflt = _distinct_roles(rng, 3)
+        w = _base_world(rng, [_plain('svc:get', dflt)],
+                        dirs=('policy.d',) if rng.random() < 0.5 else ())
+        http = ['http', PEER_URL]
+        tree = rng.choice((['and', [http, ['rule', 'owner']]],
+                           ['and', [http, ['not', ['not',
+                                                   ['rule', 'owner']]]]],
+                           ['or', [['not', http], ['rule', 'owner']]]))
+        w['files']['etc/policy.yaml'] = _file(
+            {'owner': ['true'], 'res:get': tree}, rng)
+        _finish(w, ['owner', 'res:get'])
+        edits = [_edit(rng, 'etc/policy.yaml',
+                       {'owner': ['false'], 'res:get': ['true']})]
     else:
         w = W.gen_world(rng, 'c20')
         w['conf']['pf'] = {'how': 'untouched', 'value': 'policy.yaml',
@@ -205,7 +224,9 @@ def gen_instance(rng, sc):
             calls.append(c)
         threads.append({'calls': calls})
     return {'scenario': sc, 'world': w, 'edits': edits, 'threads': threads,
-            'opcodes': False}
+            'opcodes': False,
+            # the threads' calls are the first ever made on the enforcer
+            'cold': rng.random() < 0.15}
 
 
 # ------------------------------------------------------------- execution
@@ -215,6 +236,10 @@ def prepare(inst):
     decision tables of a fresh enforcer on every disk state, the settled
     enforcer's own table, informative probes."""
     core.boot()
+    simnet.install()
+    peer = simnet.Peer()
+    peer.default = {'fault': None, 'body': b'True', 'status': 200}
+    simnet.use(peer)
     ds = W.DiskSim(inst['world'])
     try:
         E0 = ds.make_enforcer()
@@ -226,6 +251,7 @@ def prepare(inst):
         probes = ds.probes
     finally:
         ds.close()
+        simnet.use(None)
     informative = [i for i in range(len(probes))
                    if len({t[i] for t in tables} | {te0[i]}) == 1]
     return {'tables': tables, 'te0': te0, 'informative': informative,
@@ -256,12 +282,16 @@ def bias_calls(inst, pre, rng):
 def run_plan(inst, pre, plan, recorder=None, digest=None):
     """Execute one schedule. Returns dict(violation, log, steps, calls)."""
     w = inst['world']
+    peer = simnet.Peer()
+    peer.default = {'fault': None, 'body': b'True', 'status': 200}
+    simnet.use(peer)
     ds = W.DiskSim(w)
     viol = None
     try:
         E = ds.make_enforcer()
-        E.load_rules()
-        ds.decide(E, ds.probes[0])
+        if not inst.get('cold'):
+            E.load_rules()
+            ds.decide(E, ds.probes[0])
         edits = list(inst['edits'])
         applied = [0]
         last_completed_start = [0]
@@ -284,6 +314,8 @@ def run_plan(inst, pre, plan, recorder=None, digest=None):
                 except Exception as ex:      # noqa
                     return 'EXC:' + type(ex).__name__
             name, roles, system = ds.probes[c['p']]
+            if name.startswith('@tree:'):
+                name = W.build_check(w['trees'][int(name[6:])])
             creds = {'roles': list(roles)}
             if system:
                 creds['system'] = 'all'
@@ -316,7 +348,11 @@ def run_plan(inst, pre, plan, recorder=None, digest=None):
         sref[0] = s
         if recorder is not None:
             recorder(s, E)
-        s.run()
+        peer.on_request = lambda rq: s.net_wait()
+        try:
+            s.run()
+        finally:
+            peer.on_request = None
         tables = pre['tables']
 
         def namekind(pi):
@@ -372,12 +408,14 @@ def run_plan(inst, pre, plan, recorder=None, digest=None):
                     break
         out = {'violation': viol, 'log': list(s.log), 'steps': list(s.steps),
                'calls': calls, 'lock_handovers': s.lock_handovers,
+               'net_waits': s.net_waits,
                'ops_applied': applied[0], 'simtime': ds.fs.simtime}
         if digest is not None:
             digest.add('plan', plan, out['log'], calls, viol and viol['sig'])
         return out
     finally:
         ds.close()
+        simnet.use(None)
 
 
 def dry_run(inst, pre):
@@ -462,6 +500,13 @@ def gen_plan(rng, inst, dry, kind):
         return rng.randrange(0, n + 1)
     plan = []
     ne = len(inst['edits'])
+    if inst.get('cold') and rng.random() < 0.6:
+        # first-ever calls racing: a decider is stopped a few line events
+        # into its call, the other thread starts loading, the decider goes on
+        t = rng.randrange(1, nt)
+        plan = [['OP'], ['T', t, rng.randint(1, 8)], ['T', 0, point(0)],
+                ['T', t, None]]
+        return plan + [['OP'] for _ in range(ne - 1)]
     if inst['edits'][0]['op'] == 'unlink':
         kind = 'pre'
     two = [t for t in range(nt) if len(inst['threads'][t]['calls']) > 1]
@@ -517,6 +562,10 @@ def sweep_plans(inst, dry, chunk, mid):
     lands, then the reloading thread is stopped after i line events and the
     decider resumes."""
     n = dry['steps'][0]
+    if mid == 'cold':
+        k = 1 + chunk % 6
+        return [[['OP'], ['T', 1, k], ['T', 0, i], ['T', 1, None],
+                 ['T', 0, None]] for i in range(chunk, n + 1, NCHUNK)]
     if not mid:
         return [[['OP'], ['T', 0, i], ['T', 1, None], ['T', 0, None]]
                 for i in range(chunk, n + 1, NCHUNK)]
@@ -527,15 +576,20 @@ def sweep_plans(inst, dry, chunk, mid):
              ['T', 0, None]] for i in range(chunk, n + 1, NCHUNK)]
 
 
+NVARIANTS = 5
+
+
 def sweep_variant(i):
-    v = (i // (NCHUNK * 4)) % 4
+    v = (i // (NCHUNK * 4)) % NVARIANTS
+    if v == 4:
+        return {'direct_load': False, 'mid': 'cold'}
     return {'direct_load': bool(v & 1), 'mid': bool(v & 2)}
 
 
 def instance_for(base, i, mode):
     if mode == 'sweep':
         sc = SCENARIOS[(i // NCHUNK) % 4]
-        inst_no = i // (NCHUNK * 4 * 4)
+        inst_no = i // (NCHUNK * 4 * NVARIANTS)
         rng = core.rng_for(base, 'C20', '%s:%d' % (sc, inst_no), 'sweep')
         inst = gen_instance(rng, sc)
         inst['threads'] = inst['threads'][:2]
@@ -546,6 +600,7 @@ def instance_for(base, i, mode):
              'kind': 'load' if var['direct_load'] else 'enforce'}]
         inst['threads'][1]['calls'] = inst['threads'][1]['calls'][:1]
         inst['edits'] = inst['edits'][:1]
+        inst['cold'] = var['mid'] == 'cold'
         return inst, rng
     rng = core.rng_for(base, 'C20', i, mode)
     sc = SCENARIOS[i % len(SCENARIOS)]
@@ -571,7 +626,8 @@ def run_one(base, i, prop=None, mode='random'):
         plans = sweep_plans(inst, dry, i % NCHUNK, var['mid'])
         cnt.hit('sweep_points_total', dry['steps'][0] + 1
                 if i % NCHUNK == 0 else 0)
-        cnt.hit('sweep:%s%s' % ('mid' if var['mid'] else 'pre',
+        cnt.hit('sweep:%s%s' % (var['mid'] if isinstance(var['mid'], str)
+                                else 'mid' if var['mid'] else 'pre',
                                 '+direct-load' if var['direct_load']
                                 else ''), len(plans))
     else:
@@ -602,6 +658,9 @@ def run_one(base, i, prop=None, mode='random'):
         cnt.hit('context_switches', nsw)
         cnt.hit('switches_%d' % min(nsw, 5))
         cnt.hit('fault:lock_handover', out['lock_handovers'])
+        cnt.hit('fault:switch_while_waiting_for_peer', out['net_waits'])
+        if inst.get('cold'):
+            cnt.hit('probe:first_ever_calls_race')
         cnt.hit('fault:edit_during_threads', max(0, out['ops_applied'] - (
             1 if plan and plan[0] == ['OP'] else 0)))
         cnt.hit('fault:preemption_inside_library', nsw)
@@ -632,8 +691,8 @@ def run_one(base, i, prop=None, mode='random'):
 
 PROPS = ('C20',)
 TIERS = {'C20': {
-    'quick': [('sweep', NCHUNK * 4 * 4), ('random', 640)],
-    'thorough': [('sweep', NCHUNK * 4 * 4 * 12), ('random', 80000),
+    'quick': [('sweep', NCHUNK * 4 * NVARIANTS), ('random', 700)],
+    'thorough': [('sweep', NCHUNK * 4 * NVARIANTS * 12), ('random', 80000),
                  ('opcode', 4000)]}}
 
 
@@ -788,7 +847,9 @@ EXPECTED_PROBES = {'C20': ['decision_on_informative_probe',
                            'preemption_inside_library',
                            'edit_during_threads',
                            'reload_driven_by_direct_load_rules',
-                           'call_completed_before_edit']}
+                           'call_completed_before_edit',
+                           'switch_while_waiting_for_peer',
+                           'first_ever_calls_race']}
 
 
 def summarise_states(states):
